@@ -164,6 +164,105 @@ theorem c10_conservative (r0 c0 : K) (rs cs : List K) (x : K × K → K)
   obtain ⟨hcd, hlo, hhi⟩ := hcell c hc
   rw [sum_map_mul_right_k, c10_col_sum c.1 c.2 r0 rs hcd hmr hlo hhi]
 
+/-! ### the split top corner: theorems about the executable fold (`foldRow`, `foldCorner`, `mapI`) -/
+
+theorem foldRow_concat (c0 : K) (cm : List K) (cl : K) : foldRow (c0 :: (cm ++ [cl])) = cm ++ [cl + c0] := by
+  simp [foldRow, List.getLast?_concat, List.dropLast_concat]
+
+/-- folding the first entry onto the last one keeps the row sum -/
+theorem sum_foldRow (c0 : K) (cm : List K) (cl : K) :
+    (foldRow (c0 :: (cm ++ [cl]))).sum = (c0 :: (cm ++ [cl])).sum := by
+  rw [foldRow_concat]
+  simp only [List.sum_append, List.sum_cons, List.sum_nil]
+  ring
+
+theorem foldCorner_concat (first : List K) (mid : List (List K)) (last : List K) :
+    foldCorner (first :: (mid ++ [last])) = (mid ++ [addRows last first]).map foldRow := by
+  simp [foldCorner, List.getLast?_concat, List.dropLast_concat]
+
+theorem mergedLengthsI_concat (f : K × K) (mid : List (K × K)) (l : K × K) :
+    mergedLengthsI (f :: (mid ++ [l])) = (mid.map fun r => r.2 - r.1) ++ [(l.2 - l.1) + (f.2 - f.1)] := by
+  simp [mergedLengthsI, List.getLast?_concat, List.dropLast_concat]
+
+theorem zipWith_map_map {A B C D : Type} (f : B → C → D) (g : A → B) (h : A → C) (l : List A) :
+    List.zipWith f (l.map g) (l.map h) = l.map fun a => f (g a) (h a) := by
+  induction l with
+  | nil => rfl
+  | cons a t ih => simp [ih]
+
+theorem sum_map_div (l : List K) (d : K) : (l.map fun v => v / d).sum = l.sum / d := by
+  induction l with
+  | nil => simp
+  | cons a t ih => simp only [List.map_cons, List.sum_cons, ih]; ring
+
+/-- **Rows of the merged map sum to one.**  `R`, `C`: the cells of the two meshes as intervals, first and last interval being
+the two halves of the top corner cell.  If every `R` interval is tiled by the `C` intervals (`ovl_tiling` / `c10_row_sum_one`
+give this for meshes walking the same perimeter) and has positive length, every row of the executable merged map - the halves
+of the top corner added up, rows divided by the merged cell length - sums to one: a uniform field is reproduced exactly,
+whatever the two corner halves are. -/
+theorem c10_fold_row_sum_one (rf rl : K × K) (rmid : List (K × K)) (cf cl : K × K) (cmid : List (K × K))
+    (hcov : ∀ r ∈ rf :: (rmid ++ [rl]),
+      ((cf :: (cmid ++ [cl])).map fun c => ovl r.1 r.2 c.1 c.2).sum = r.2 - r.1)
+    (hpos : ∀ r ∈ rf :: (rmid ++ [rl]), r.1 < r.2) :
+    ∀ row ∈ mapI (rf :: (rmid ++ [rl])) (cf :: (cmid ++ [cl])), row.sum = 1 := by
+  intro row hrow
+  -- shape of one raw row
+  have hshape : ∀ r : K × K, ((cf :: (cmid ++ [cl])).map fun c => ovl r.1 r.2 c.1 c.2)
+      = ovl r.1 r.2 cf.1 cf.2 :: ((cmid.map fun c => ovl r.1 r.2 c.1 c.2) ++ [ovl r.1 r.2 cl.1 cl.2]) := by
+    intro r; simp
+  have hfold : ∀ r : K × K, (foldRow ((cf :: (cmid ++ [cl])).map fun c => ovl r.1 r.2 c.1 c.2)).sum
+      = ((cf :: (cmid ++ [cl])).map fun c => ovl r.1 r.2 c.1 c.2).sum := by
+    intro r; rw [hshape, sum_foldRow]
+  unfold mapI rawI at hrow
+  rw [List.map_cons, List.map_append, List.map_singleton, foldCorner_concat, mergedLengthsI_concat,
+    List.map_append, List.map_singleton, List.map_map] at hrow
+  rw [List.zipWith_append (by simp)] at hrow
+  rcases List.mem_append.mp hrow with hmid | hlast
+  · -- a cell that is not the top corner
+    rw [zipWith_map_map] at hmid
+    obtain ⟨r, hr, rfl⟩ := List.mem_map.mp hmid
+    have hrm : r ∈ rf :: (rmid ++ [rl]) := by simp [hr]
+    have hp : r.2 - r.1 ≠ 0 := (sub_pos.mpr (hpos r hrm)).ne'
+    simp only [Function.comp]
+    rw [sum_map_div, hfold, hcov r hrm, div_self hp]
+  · -- the merged top corner
+    simp only [List.zipWith_cons_cons, List.zipWith_nil_right, List.mem_singleton] at hlast
+    subst hlast
+    have hl : rl ∈ rf :: (rmid ++ [rl]) := by simp
+    have hf : rf ∈ rf :: (rmid ++ [rl]) := by simp
+    have hadd : addRows ((cf :: (cmid ++ [cl])).map fun c => ovl rl.1 rl.2 c.1 c.2)
+        ((cf :: (cmid ++ [cl])).map fun c => ovl rf.1 rf.2 c.1 c.2)
+        = (cf :: (cmid ++ [cl])).map fun c => ovl rl.1 rl.2 c.1 c.2 + ovl rf.1 rf.2 c.1 c.2 := by
+      unfold addRows; rw [zipWith_map_map]
+    have hshape2 : ((cf :: (cmid ++ [cl])).map fun c => ovl rl.1 rl.2 c.1 c.2 + ovl rf.1 rf.2 c.1 c.2)
+        = (ovl rl.1 rl.2 cf.1 cf.2 + ovl rf.1 rf.2 cf.1 cf.2)
+          :: ((cmid.map fun c => ovl rl.1 rl.2 c.1 c.2 + ovl rf.1 rf.2 c.1 c.2)
+              ++ [ovl rl.1 rl.2 cl.1 cl.2 + ovl rf.1 rf.2 cl.1 cl.2]) := by simp
+    have hpl : 0 < (rl.2 - rl.1) + (rf.2 - rf.1) := by
+      have := hpos rl hl; have := hpos rf hf; linarith
+    rw [sum_map_div, hadd, hshape2, sum_foldRow, ← hshape2, sum_map_add, hcov rl hl, hcov rf hf, div_self hpl.ne']
+
+/-- the same for boundary lists: region mesh `xr` and gap mesh `xc = c0 :: cs` (monotone) walk the same perimeter -/
+theorem c10_f2c_rows_sum_one (xr : List K) (c0 : K) (cs : List K)
+    (rf rl : K × K) (rmid : List (K × K)) (cf cl : K × K) (cmid : List (K × K))
+    (hR : intervals xr = rf :: (rmid ++ [rl])) (hC : intervals (c0 :: cs) = cf :: (cmid ++ [cl]))
+    (hm : Mono (c0 :: cs))
+    (hin : ∀ r ∈ intervals xr, r.1 < r.2 ∧ c0 ≤ r.1 ∧ r.2 ≤ (c0 :: cs).getLast (by simp)) :
+    ∀ row ∈ f2c xr (c0 :: cs), row.sum = 1 := by
+  unfold f2c
+  rw [hR, hC]
+  apply c10_fold_row_sum_one
+  · intro r hr
+    rw [← hC]
+    have h := hin r (by rw [hR]; exact hr)
+    rw [(ovl_tiling r.1 r.2 c0 cs hm).1, ovl_inside r.1 r.2 c0 _ h.1.le h.2.1 h.2.2]
+  · intro r hr
+    exact (hin r (by rw [hR]; exact hr)).1
+
+/-- non-vacuity on ℚ: unequal halves of the top corner on both meshes (1 vs 1/2 and 1/2 vs 2); rows still sum to one -/
+example : (f2c [(0 : ℚ), 1, 3, 7 / 2] [0, 1 / 2, 3 / 2, 7 / 2]).map List.sum = [1, 1] := by
+  norm_num [f2c, mapI, rawI, intervals, foldCorner, foldRow, mergedLengthsI, addRows, ovl, List.getLast?, List.dropLast]
+
 /-- Non-vacuity / sanity on ℚ. -/
 example : ((intervals [(0 : ℚ), 1, 3, 4]).map fun c => ovl (1 / 2) (7 / 2) c.1 c.2 / (7 / 2 - 1 / 2)).sum = 1 := by
   simp only [intervals, ovl, List.map, List.sum_cons, List.sum_nil]
